@@ -1622,6 +1622,10 @@ REF_FCN static REF_STATUS ref_import_meshb(REF_GRID *ref_grid_ptr,
           RSS(ref_import_meshb_int(file, version, &(nodes[node])), "c2n");
         }
         for (node = 0; node < node_per; node++) {
+          if (nodes[node] < 1 || nnode < nodes[node]) {
+            printf("cell vertex %d of %d nodes\n", nodes[node], nnode);
+            RSS(REF_INVALID, "cell vertex index out of range");
+          }
           nodes[node]--;
         }
         if (REF_CELL_PYR == ref_cell_type(ref_cell)) {
@@ -1658,6 +1662,10 @@ REF_FCN static REF_STATUS ref_import_meshb(REF_GRID *ref_grid_ptr,
         RSS(ref_import_meshb_int(file, version, &(id)), "node");
         for (i = 0; i < type; i++)
           REIS(1, fread(&(param[i]), sizeof(double), 1, file), "param");
+        if (node < 1 || nnode < node) {
+          printf("geom vertex %d of %d nodes\n", node, nnode);
+          RSS(REF_INVALID, "geom vertex index out of range");
+        }
         node--;
         RSS(ref_geom_add(ref_geom, node, type, id, param), "add geom");
         if (0 < type) {
